@@ -33,6 +33,59 @@ type tampering struct {
 	// redactableOnly: only material outside the redacted form was altered, so
 	// ID and signature validity must be those of the original
 	redactableOnly bool
+	// rehash: the sender (or a relay) recomputed the content hash after the edit, so the hash matches
+	rehash bool
+}
+
+// lookalikeTop adds a top-level key that differs from a protected key only by case / a case-folding letter, with a
+// value of the protected key's kind. It is an unknown key to every reader of the event.
+func lookalikeTop(r *gen.Rand, ev *ref.Value, keys []string) bool {
+	k := gen.Pick(r, keys)
+	vs := gen.FoldVariants(k)
+	if len(vs) == 0 {
+		return false
+	}
+	v := gen.Pick(r, vs)
+	var val *ref.Value
+	switch k {
+	case "type":
+		val = ref.S("m.room.power_levels")
+	case "state_key":
+		val = ref.S("")
+	case "sender":
+		val = ref.S("@mallory:evil.example")
+	case "room_id":
+		val = ref.S("!other:evil.example")
+	case "event_id":
+		val = ref.S("$spoofed")
+	case "content":
+		val = ref.O("users", ref.O("@mallory:evil.example", ref.I(100)), "membership", ref.S("ban"))
+	case "depth", "origin_server_ts":
+		val = ref.I(1)
+	case "redacts":
+		val = ref.S("$victim")
+	case "hashes":
+		val = ref.O("sha256", ref.S("AAAAAAAAAAAAAAAAAAAAAAAAAAAAAAAAAAAAAAAAAAA"))
+	default:
+		val = ref.S("x")
+	}
+	ev.Set(v, val)
+	return true
+}
+
+var lookalikeKeys = []string{"type", "state_key", "sender", "room_id", "event_id", "content", "depth", "origin_server_ts", "redacts", "hashes", "membership", "prev_state", "origin"}
+
+// setContentHash stores the reference content hash of the event as received.
+func setContentHash(ev *ref.Value, t *ref.VersionTraits) {
+	recv := ev.Clone()
+	for _, k := range strippedOnReceipt {
+		recv.Del(k)
+	}
+	if t.EventFormat == 2 {
+		recv.Del("event_id")
+	}
+	h := ref.ContentHash(recv)
+	ev.Set("hashes", ref.O("sha256", ref.S(base64.RawStdEncoding.EncodeToString(h[:]))))
 }
 
 func redactableContentKey(t *ref.VersionTraits, ev *ref.Value) string {
@@ -54,52 +107,65 @@ func redactableContentKey(t *ref.VersionTraits, ev *ref.Value) string {
 }
 
 var tamperings = []tampering{
-	{"none", func(r *gen.Rand, t *ref.VersionTraits, ev *ref.Value) bool { return true }, true},
-	{"content-redactable-changed", func(r *gen.Rand, t *ref.VersionTraits, ev *ref.Value) bool {
+	{name: "none", apply: func(r *gen.Rand, t *ref.VersionTraits, ev *ref.Value) bool { return true }, redactableOnly: true},
+	{name: "top-level-lookalike-key", apply: func(r *gen.Rand, t *ref.VersionTraits, ev *ref.Value) bool { return lookalikeTop(r, ev, lookalikeKeys) }, redactableOnly: true},
+	{name: "rehashed-lookalike-key", apply: func(r *gen.Rand, t *ref.VersionTraits, ev *ref.Value) bool { return lookalikeTop(r, ev, lookalikeKeys) }, rehash: true},
+	{name: "rehashed-lookalike-keys-last", apply: func(r *gen.Rand, t *ref.VersionTraits, ev *ref.Value) bool {
+		ok := false
+		for _, k := range []string{"type", "content", "state_key", "sender"} {
+			ok = lookalikeTop(r, ev, []string{k}) || ok
+		}
+		return ok
+	}, rehash: true},
+	{name: "rehashed-content-changed", apply: func(r *gen.Rand, t *ref.VersionTraits, ev *ref.Value) bool {
+		ev.Get("content").Set("injected_by_sender", ref.S("x"))
+		return true
+	}, rehash: true},
+	{name: "content-redactable-changed", apply: func(r *gen.Rand, t *ref.VersionTraits, ev *ref.Value) bool {
 		k := redactableContentKey(t, ev)
 		if k == "" {
 			return false
 		}
 		ev.Get("content").Set(k, ref.S("tampered"))
 		return true
-	}, true},
-	{"content-redactable-added", func(r *gen.Rand, t *ref.VersionTraits, ev *ref.Value) bool {
+	}, redactableOnly: true},
+	{name: "content-redactable-added", apply: func(r *gen.Rand, t *ref.VersionTraits, ev *ref.Value) bool {
 		typ, _ := ev.Get("type").Str()
 		if _, all := ref.ContentKeep(t.Redaction, typ); all {
 			return false
 		}
 		ev.Get("content").Set("injected_by_attacker", ref.O("body", ref.S("spam")))
 		return true
-	}, true},
-	{"content-redactable-removed", func(r *gen.Rand, t *ref.VersionTraits, ev *ref.Value) bool {
+	}, redactableOnly: true},
+	{name: "content-redactable-removed", apply: func(r *gen.Rand, t *ref.VersionTraits, ev *ref.Value) bool {
 		k := redactableContentKey(t, ev)
 		if k == "" {
 			return false
 		}
 		ev.Get("content").Del(k)
 		return true
-	}, true},
-	{"top-level-extra-key", func(r *gen.Rand, t *ref.VersionTraits, ev *ref.Value) bool {
+	}, redactableOnly: true},
+	{name: "top-level-extra-key", apply: func(r *gen.Rand, t *ref.VersionTraits, ev *ref.Value) bool {
 		ev.Set("injected_top_level", ref.A(ref.I(1), ref.S("x")))
 		return true
-	}, true},
-	{"top-level-redacts-changed", func(r *gen.Rand, t *ref.VersionTraits, ev *ref.Value) bool {
+	}, redactableOnly: true},
+	{name: "top-level-redacts-changed", apply: func(r *gen.Rand, t *ref.VersionTraits, ev *ref.Value) bool {
 		ev.Set("redacts", ref.S("$other:evil.example"))
 		return true
-	}, true},
-	{"top-level-origin-changed", func(r *gen.Rand, t *ref.VersionTraits, ev *ref.Value) bool {
+	}, redactableOnly: true},
+	{name: "top-level-origin-changed", apply: func(r *gen.Rand, t *ref.VersionTraits, ev *ref.Value) bool {
 		if t.Redaction < 5 {
 			return false // origin is protected before v11
 		}
 		ev.Set("origin", ref.S("evil.example"))
 		return true
-	}, true},
-	{"protected-depth-changed", func(r *gen.Rand, t *ref.VersionTraits, ev *ref.Value) bool {
+	}, redactableOnly: true},
+	{name: "protected-depth-changed", apply: func(r *gen.Rand, t *ref.VersionTraits, ev *ref.Value) bool {
 		d, _ := ev.Get("depth").Int()
 		ev.Set("depth", ref.I(d^3))
 		return true
-	}, false},
-	{"protected-content-changed", func(r *gen.Rand, t *ref.VersionTraits, ev *ref.Value) bool {
+	}, redactableOnly: false},
+	{name: "protected-content-changed", apply: func(r *gen.Rand, t *ref.VersionTraits, ev *ref.Value) bool {
 		typ, _ := ev.Get("type").Str()
 		keep, _ := ref.ContentKeep(t.Redaction, typ)
 		for _, k := range keep {
@@ -109,38 +175,74 @@ var tamperings = []tampering{
 			}
 		}
 		return false
-	}, false},
-	{"hash-replaced", func(r *gen.Rand, t *ref.VersionTraits, ev *ref.Value) bool {
+	}, redactableOnly: false},
+	{name: "hash-replaced", apply: func(r *gen.Rand, t *ref.VersionTraits, ev *ref.Value) bool {
 		ev.Set("hashes", ref.O("sha256", ref.S(base64.RawStdEncoding.EncodeToString(r.Bytes(32)))))
 		return true
-	}, false},
-	{"hash-removed", func(r *gen.Rand, t *ref.VersionTraits, ev *ref.Value) bool { ev.Del("hashes"); return true }, false},
-	{"hash-sha256-missing", func(r *gen.Rand, t *ref.VersionTraits, ev *ref.Value) bool {
+	}, redactableOnly: false},
+	{name: "hash-removed", apply: func(r *gen.Rand, t *ref.VersionTraits, ev *ref.Value) bool { ev.Del("hashes"); return true }},
+	{name: "hash-sha256-missing", apply: func(r *gen.Rand, t *ref.VersionTraits, ev *ref.Value) bool {
 		ev.Set("hashes", ref.O("md5", ref.S("abcd")))
 		return true
-	}, false},
-	{"hash-truncated", func(r *gen.Rand, t *ref.VersionTraits, ev *ref.Value) bool {
+	}, redactableOnly: false},
+	{name: "hash-truncated", apply: func(r *gen.Rand, t *ref.VersionTraits, ev *ref.Value) bool {
 		s, _ := ev.Get("hashes").Get("sha256").Str()
 		ev.Set("hashes", ref.O("sha256", ref.S(s[:len(s)-2])))
 		return true
-	}, false},
-	{"stripped-unsigned-changed", func(r *gen.Rand, t *ref.VersionTraits, ev *ref.Value) bool {
+	}, redactableOnly: false},
+	{name: "stripped-unsigned-changed", apply: func(r *gen.Rand, t *ref.VersionTraits, ev *ref.Value) bool {
 		ev.Set("unsigned", ref.O("age", ref.I(99999), "redacted_because", ref.O("x", ref.I(1))))
 		return true
-	}, true},
-	{"stripped-keys-added", func(r *gen.Rand, t *ref.VersionTraits, ev *ref.Value) bool {
+	}, redactableOnly: true},
+	{name: "stripped-keys-added", apply: func(r *gen.Rand, t *ref.VersionTraits, ev *ref.Value) bool {
 		ev.Set("age_ts", ref.I(1234))
 		ev.Set("outlier", ref.B(true))
 		ev.Set("destinations", ref.A(ref.S("x.example")))
 		return true
-	}, true},
-	{"stripped-event-id-added", func(r *gen.Rand, t *ref.VersionTraits, ev *ref.Value) bool {
+	}, redactableOnly: true},
+	{name: "stripped-event-id-added", apply: func(r *gen.Rand, t *ref.VersionTraits, ev *ref.Value) bool {
 		if t.EventFormat == 1 {
 			return false
 		}
 		ev.Set("event_id", ref.S("$forged"))
 		return true
-	}, true},
+	}, redactableOnly: true},
+}
+
+// accessorsVsJSON names the first field whose accessor disagrees with the event's own JSON (exact key names).
+func accessorsVsJSON(p gmsl.PDU, j *ref.Value, t *ref.VersionTraits) string {
+	str := func(k string) string { s, _ := j.Get(k).Str(); return s }
+	if p.Type() != str("type") {
+		return "type"
+	}
+	if string(p.SenderID()) != str("sender") {
+		return "sender"
+	}
+	if sk := p.StateKey(); (sk == nil) != (j.Get("state_key") == nil) || (sk != nil && *sk != str("state_key")) {
+		return "state_key"
+	}
+	if j.Get("room_id") != nil {
+		room := ""
+		if _, _, pan := mon.Guard(func() { room = p.RoomID().String() }); pan || room != str("room_id") {
+			return "room_id"
+		}
+	}
+	if cv, _, err := ref.Parse(p.Content()); err != nil || !ref.Equal(cv, j.Get("content")) {
+		return "content"
+	}
+	if d, ok := j.Get("depth").Int(); ok && p.Depth() != d {
+		return "depth"
+	}
+	if ts, ok := j.Get("origin_server_ts").Int(); ok && int64(p.OriginServerTS()) != ts {
+		return "origin_server_ts"
+	}
+	if p.Redacts() != str("redacts") && j.Get("redacts") != nil && j.Get("redacts").K == ref.Str {
+		return "redacts"
+	}
+	if t.EventFormat == 1 && p.EventID() != str("event_id") {
+		return "event_id"
+	}
+	return ""
 }
 
 func runC04(c *mon.Ctx) {
@@ -157,6 +259,9 @@ func runC04(c *mon.Ctx) {
 			impl := gmsl.MustGetRoomVersion(ver)
 			ps := genProto(r, t)
 			ev, err := buildEvent(ver, ps, id, baseTime)
+			if err != nil && t.EnforceCanon && ps.Depth > 9007199254740991 {
+				continue // versions 6+ cannot carry such a depth (C03 asserts that)
+			}
 			if err != nil {
 				c.Case("build", map[string]any{"version": ver, "proto": ps}, func() {
 					c.Failf("build:refuses-valid-proto", "Build(v%s): %v", ver, err)
@@ -170,6 +275,9 @@ func runC04(c *mon.Ctx) {
 				tv := orig.Clone()
 				if !tm.apply(tr, t, tv) {
 					continue
+				}
+				if tm.rehash {
+					setContentHash(tv, t)
 				}
 				text := gen.Plain().Bytes(tv)
 				if tr.Chance(0.3) {
@@ -188,7 +296,7 @@ func runC04(c *mon.Ctx) {
 					hs, _ := recv.Get("hashes").Get("sha256").Str()
 					hb, herr := base64.RawStdEncoding.DecodeString(hs)
 					matches := herr == nil && bytes.Equal(hb, want[:])
-					if (tm.name == "none" || tm.name[:8] == "stripped") != matches {
+					if (tm.name == "none" || tm.name[:8] == "stripped" || tm.rehash) != matches {
 						panic(fmt.Sprintf("harness bug: tampering %s: reference hash match = %v", tm.name, matches))
 					}
 					p, err := impl.NewEventFromUntrustedJSON(text)
@@ -199,6 +307,11 @@ func runC04(c *mon.Ctx) {
 					got, _, perr := ref.Parse(p.JSON())
 					if perr != nil {
 						c.Failf("untrusted:json-invalid", "JSON() invalid: %v", perr)
+						return
+					}
+					// whatever the outcome, the accessors must report what the event's JSON says under the exact key names
+					if d := accessorsVsJSON(p, got, t); d != "" {
+						c.Failf("untrusted:accessor-disagrees-with-json:"+d, "after %s (v%s) the accessor for %s reports something else than JSON() holds under that key\n in  %s\n out %s", tm.name, ver, d, text, p.JSON())
 						return
 					}
 					if keyOutside := redactableContentKey(t, tv); keyOutside != "" {
@@ -212,6 +325,16 @@ func runC04(c *mon.Ctx) {
 						}
 						if !ref.Equal(got, recv) {
 							c.Failf("hashok:fields-altered:"+tm.name, "event with a matching hash does not come back intact (v%s, %s)\n in  %s\n out %s", ver, tm.name, ref.Canon(recv), ref.Canon(got))
+							return
+						}
+						if tm.rehash {
+							// a different, self-consistent event: its ID is the reference hash of its own redacted form
+							c.Count("rehashed_cases")
+							if t.EventIDFormat >= 2 {
+								if want := ref.EventID(t, recv); p.EventID() != want {
+									c.Failf("hashok:id-not-reference-hash:"+tm.name, "EventID() = %s, the reference hash of the event is %s (v%s, %s)\n%s", p.EventID(), want, ver, tm.name, text)
+								}
+							}
 							return
 						}
 						if cv, _, e := ref.Parse(p.Content()); e != nil || !ref.Equal(cv, orig.Get("content")) {
